@@ -1,6 +1,8 @@
 // Package c11: the real isequencer driven step by step (caller, flusher goroutine, actualizer
-// goroutine) through verifhook points and a scripted ISeqStorage; crash = new sequencer on the
-// persisted state. A scenario is a list of moves; the emitted trace is the list of model actions.
+// goroutine) through verifhook points. The ISeqStorage it works on persists through the real stack
+// (appparts/internal/seqstorage over the vvm storage adapter over an in-memory IAppStorage, with
+// failures injected at the IAppStorage calls); only the log scan is scripted. Crash = new sequencer
+// on the persisted state. A scenario is a list of moves; the emitted trace is the list of model actions.
 package c11
 
 import (
@@ -16,8 +18,11 @@ import (
 
 	"verifharness/kit"
 
+	"github.com/voedger/voedger/pkg/appparts"
 	"github.com/voedger/voedger/pkg/goutils/verifhook"
 	"github.com/voedger/voedger/pkg/isequencer"
+	"github.com/voedger/voedger/pkg/istorage"
+	vvmstorage "github.com/voedger/voedger/pkg/vvm/storage"
 )
 
 // keys 0..3 = (ws 1, seq 1), (ws 1, seq 2), (ws 2, seq 1), (ws 2, seq 2)
@@ -39,9 +44,8 @@ type event struct {
 
 // world is what survives a crash
 type world struct {
-	nums map[int]uint64
-	off  uint64
-	log  []event
+	stg istorage.IAppStorage // where numbers and the next offset are persisted
+	log []event
 }
 
 type arrival struct{ role, point string }
@@ -66,6 +70,31 @@ type inc struct {
 	lastBatch map[int]uint64
 	lastOff   uint64
 	scanCur   uint64 // offset of the log event being handed to the batcher
+	real      isequencer.ISeqStorage
+}
+
+// before is the fault-injection / parking hook on the IAppStorage calls of this incarnation:
+// PutBatch = the numbers write, Put = the offset write.
+func (in *inc) before(c *kit.Call) kit.Verdict {
+	if in.dead.Load() {
+		if c.Op == "Put" || c.Op == "PutBatch" {
+			return kit.Verdict{FailBefore: errInjected}
+		}
+		return kit.Verdict{}
+	}
+	switch c.Op {
+	case "PutBatch":
+		in.park("flusher", "st.write.enter")
+		if in.dead.Load() || in.writeOutcome == "err" {
+			return kit.Verdict{FailBefore: errInjected}
+		}
+	case "Put":
+		in.park("flusher", "st.write.mid")
+		if in.dead.Load() || in.writeOutcome == "errmid" {
+			return kit.Verdict{FailBefore: errInjected}
+		}
+	}
+	return kit.Verdict{}
 }
 
 var debug = os.Getenv("C11_DEBUG") != ""
@@ -104,13 +133,7 @@ func (in *inc) park(role, point string) {
 // ---- scripted ISeqStorage ----
 
 func (in *inc) ReadNumbers(ws isequencer.WSID, ids []isequencer.SeqID) ([]isequencer.Number, error) {
-	res := make([]isequencer.Number, len(ids))
-	in.mu.Lock()
-	defer in.mu.Unlock()
-	for i, id := range ids {
-		res[i] = isequencer.Number(in.w.nums[keyIdx(isequencer.NumberKey{WSID: ws, SeqID: id})])
-	}
-	return res, nil
+	return in.real.ReadNumbers(ws, ids)
 }
 
 func (in *inc) WriteValuesAndNextPLogOffset(batch []isequencer.SeqValue, off isequencer.PLogOffset) error {
@@ -124,29 +147,11 @@ func (in *inc) WriteValuesAndNextPLogOffset(batch []isequencer.SeqValue, off ise
 	in.mu.Lock()
 	in.lastBatch, in.lastOff = b, uint64(off)
 	in.mu.Unlock()
-	in.park("flusher", "st.write.enter")
+	err := in.real.WriteValuesAndNextPLogOffset(batch, off)
 	if in.dead.Load() {
 		return nil
 	}
-	if in.writeOutcome == "err" {
-		return errInjected
-	}
-	in.mu.Lock()
-	for k, v := range b {
-		in.w.nums[k] = v
-	}
-	in.mu.Unlock()
-	in.park("flusher", "st.write.mid")
-	if in.dead.Load() {
-		return nil
-	}
-	if in.writeOutcome == "errmid" {
-		return errInjected
-	}
-	in.mu.Lock()
-	in.w.off = uint64(off)
-	in.mu.Unlock()
-	return nil
+	return err
 }
 
 func (in *inc) ReadNextPLogOffset() (isequencer.PLogOffset, error) {
@@ -160,9 +165,7 @@ func (in *inc) ReadNextPLogOffset() (isequencer.PLogOffset, error) {
 	if !in.readOffOK {
 		return 0, errInjected
 	}
-	in.mu.Lock()
-	defer in.mu.Unlock()
-	return isequencer.PLogOffset(in.w.off), nil
+	return in.real.ReadNextPLogOffset()
 }
 
 func (in *inc) ActualizeSequencesFromPLog(ctx context.Context, offset isequencer.PLogOffset,
@@ -245,6 +248,7 @@ func (d *driver) emit(a string) { d.acts = append(d.acts, a) }
 
 func (d *driver) newIncarnation() {
 	in := &inc{w: d.w, arrivals: make(chan arrival, 4), gates: map[string]chan struct{}{"flusher": make(chan struct{}), "act": make(chan struct{})}, clock: d.clock}
+	in.real = appparts.VerifNewSeqStorage(1, 7, nil, nil, vvmstorage.NewVVMSeqStorageAdapter(&kit.Wrap{Inner: d.w.stg, Before: in.before}))
 	d.in = in
 	current.Store(in)
 	params := isequencer.Params{
@@ -428,6 +432,7 @@ func (d *driver) stepFlusher(m string) error {
 		d.release("flusher")
 		d.flLoc = "select"
 	case "st.write.enter":
+		// the numbers write (PutBatch) is about to happen
 		out := strings.TrimPrefix(m, "fl:")
 		if out == "fl" {
 			out = "ok"
@@ -436,31 +441,36 @@ func (d *driver) stepFlusher(m string) error {
 		d.release("flusher")
 		if out == "err" {
 			d.errs++
-			d.emit("FWriteErr")
-			d.expect("flusher", "st.write.enter") // after the retry delay
-			d.flLoc = "st.write.enter"
 		} else {
-			d.expect("flusher", "st.write.mid")
 			d.emit("FWriteNums")
-			d.flLoc = "st.write.mid"
 		}
+		d.afterWrite(out == "err")
 	case "st.write.mid":
+		// the offset write (Put) is about to happen
 		d.release("flusher")
-		if d.in.writeOutcome == "errmid" {
+		failed := d.in.writeOutcome == "errmid"
+		if failed {
 			d.errs++
-			d.emit("FWriteErr")
-			d.expect("flusher", "st.write.enter")
-			d.flLoc = "st.write.enter"
 		} else {
-			d.expect("flusher", "seq.flusher.removed")
 			d.emit("FWriteOff")
-			d.emit("FRemove")
-			d.flLoc = "seq.flusher.removed"
 		}
+		d.afterWrite(failed)
 	default:
 		return fmt.Errorf("flusher cannot step from %q", d.flLoc)
 	}
 	return nil
+}
+
+// afterWrite: where the flusher shows up after a storage write tells what it made of the result
+func (d *driver) afterWrite(failed bool) {
+	p := d.expect("flusher", "st.write.enter", "st.write.mid", "seq.flusher.removed")
+	switch p {
+	case "st.write.enter":
+		d.emit("FWriteErr") // a new attempt, after the retry delay
+	case "seq.flusher.removed":
+		d.emit("FRemove")
+	}
+	d.flLoc = p
 }
 
 func (d *driver) afterBatcherOrScan() {
